@@ -94,7 +94,7 @@ def judge(ctx, groups):
   return res_all
 
 
-def section(ctx):
+def section(ctx, violate=False):
   model(ctx)
   wm = wiresys.WireModules(ctx.scratch)
   groups = runs(ctx, wm, ctx.rng, ctx.pick(40, 400), ctx.pick(14, 30))
@@ -104,6 +104,13 @@ def section(ctx):
     if any(e['accepted'] == 0 for e in t['ev']):
       nlim += 1
     for f in sorted(fl):
+      if violate and f in ('ports', 'admission'):
+        # a listener that stays closed below the limit (or refuses below it) cannot be sent datapoints at all
+        ctx.violation('connection admission: %s - clients that connect while fewer than MAX_RECEIVER_CONNECTIONS are '
+                      'connected cannot deliver their datapoints' % ('a listening port is paused / not paused contrary to the number of connected clients'
+                                                                       if f == 'ports' else 'a connection was refused below the limit or accepted at it'),
+                      dict(MAX_RECEIVER_CONNECTIONS=t['max'], ports=t['ports'], events=t['ev'][:20]), signature='listen:' + f)
+        continue
       ctx.note_drift('connection admission (MAX_RECEIVER_CONNECTIONS=%d, %d ports): %s differs from Listen.tla; events %s'
                      % (t['max'], t['ports'], f, [(e['e'], e['c'], e['accepted'], e['n'], e['paused']) for e in t['ev'][:12]]))
   ctx.cov['listen_runs'] = len(verdicts)
